@@ -36,7 +36,13 @@ def coarsen_sym(p):
     bins = concrete_bins(layout, p["kind"])
     b1, b2, v = sym_pixels(n, K, upper)
     w = [sym_int(f"w{q}", 1, 9) for q in range(K)]
-    src = build_cooler_sym(scratch_file("c08_in.cool"), bins, b1, b2, {"count": v, "w": w}, upper, dtypes={"w": "int64"})
+    cdt = "int32"
+    if p.get("float_counts"):
+        # a source whose count column is float64 with fractional values, coarsened without an explicit dtype: sums must stay exact
+        from engine.symcore import SReal
+        v = [SReal.of(x) / 4 for x in v]
+        cdt = "float64"
+    src = build_cooler_sym(scratch_file("c08_in.cool"), bins, b1, b2, {"count": v, "w": w}, upper, dtypes={"w": "int64", "count": cdt})
     k = concretize(sym_int("factor", 2, p["kmax"]))
     cs = concretize(sym_int("chunksize", 1, K + 1))
     out = scratch_file("c08_out.cool")
@@ -80,7 +86,11 @@ def coarsen_real(p, inputs):
     bins = concrete_bins(layout, p["kind"])
     b1, b2, v = pixels_from_inputs(inputs, K)
     w = [inputs[f"w{q}"] for q in range(K)]
-    src = build_cooler_real(scratch_file("c08_in.cool"), bins, b1, b2, {"count": v, "w": w}, upper, dtypes={"w": "int64"})
+    cdt = "int32"
+    if p.get("float_counts"):
+        v = [x / 4 for x in v]
+        cdt = "float64"
+    src = build_cooler_real(scratch_file("c08_in.cool"), bins, b1, b2, {"count": v, "w": w}, upper, dtypes={"w": "int64", "count": cdt})
     k, cs = inputs["factor"], inputs["chunksize"]
     out = scratch_file("c08_out.cool")
     cooler.coarsen_cooler(src, out, k, cs, nproc=nproc, columns=["count", "w"], agg={"w": p["agg"]} if p["agg"] != "sum" else None)
@@ -101,7 +111,7 @@ def coarsen_real(p, inputs):
     got = {(r, c): [x, y] for r, c, x, y in zip(pix["bin1_id"], pix["bin2_id"], pix["count"], pix["w"])}
     if got != exp or len(pix["bin1_id"]) != len(exp):
         raise OracleFailure(f"coarsened pixels {got} differ from block aggregation {exp}")
-    if int(attrs["sum"]) != sum(v):
+    if float(attrs["sum"]) != sum(v):
         raise OracleFailure("total not preserved")
     return dict(pix=pix, bins=nb, sum=attrs["sum"])
 
@@ -123,6 +133,8 @@ def _cases(tier):
                 if nproc > 1:
                     c["validate_every"] = 5  # the real run forks real worker processes: sample these
                 out.append(c)
+    # a float64 count column with fractional values, coarsened without an explicit dtype
+    out.append(dict(layout=[3], kind="fixed", K=2, upper=True, nproc=1, kmax=2, agg="sum", float_counts=True))
     return out
 
 
@@ -168,3 +180,56 @@ MUTANTS = [
     dict(name="batching skips a span", file="_reduce.py", old="                results = self._map(self.aggregate, spans[i : i + batchsize])", new="                results = self._map(self.aggregate, spans[i : i + max(batchsize - 1, 1)])", checks=["coarsen"]),
     dict(name="greedy prune drops last edge", file="_reduce.py", old="    cuts.append(cumlen[-1])\n", new="", checks=["coarsen"]),
 ]
+
+
+# ---------------------------------------------------------------------------
+# block sums near the limit of the value type: stored == exact, or an error
+# ---------------------------------------------------------------------------
+def coverflow_sym(p):
+    from engine import symh5
+    symh5.reset()
+    sc = symcooler()
+    bins = concrete_bins([4], "even")
+    src_dt, dst_dt = p["src"], p.get("dst")
+    smax = int(np.iinfo(src_dt).max)
+    hi = int(np.iinfo(dst_dt or src_dt).max)
+    v0, v1 = sym_int("v0", 1, smax), sym_int("v1", 1, smax)
+    # pixels (0,2) and (1,3) fall into the same coarse pixel (0,1) at factor 2
+    src = build_cooler_sym(scratch_file("c08o_in.cool"), bins, [0, 1], [2, 3], {"count": [v0, v1]}, True, dtypes={"count": src_dt})
+    out = scratch_file("c08o_out.cool")
+    cover("exceeds_type", v0 + v1 > hi)
+    try:
+        sc.coarsen_cooler(src, out, 2, 10, **({"dtypes": {"count": np.dtype(dst_dt)}} if dst_dt else {}))
+    except (ValueError, OverflowError):
+        prove(v0 + v1 > hi, "coarsening refused although the block sum fits the output type")
+        return ["raises", "ValueError"]
+    pix, attrs = read_pixels_sym(out)
+    prove(and_(len(pix["count"]) == 1, pix["count"][0] == v0 + v1) if len(pix["count"]) == 1 else False,
+          "stored block sum silently differs from the exact sum (does not fit / wrapped)")
+    return pix["count"]
+
+
+def coverflow_real(p, inputs):
+    import cooler
+    bins = concrete_bins([4], "even")
+    src_dt, dst_dt = p["src"], p.get("dst")
+    v0, v1 = inputs["v0"], inputs["v1"]
+    src = build_cooler_real(scratch_file("c08o_in.cool"), bins, [0, 1], [2, 3], {"count": [v0, v1]}, True, dtypes={"count": src_dt})
+    out = scratch_file("c08o_out.cool")
+    try:
+        cooler.coarsen_cooler(src, out, 2, 10, **({"dtypes": {"count": np.dtype(dst_dt)}} if dst_dt else {}))
+    except (ValueError, OverflowError):
+        if v0 + v1 <= int(np.iinfo(dst_dt or src_dt).max):
+            raise OracleFailure("coarsening refused although the block sum fits the output type")
+        return ["raises", "ValueError"]
+    pix, attrs = read_pixels_real(out)
+    if pix["count"] != [v0 + v1]:
+        raise OracleFailure(f"stored block sum {pix['count']} silently differs from the exact sum {v0 + v1}")
+    return pix["count"]
+
+
+CHECKS.append(Check("overflow", lambda tier: [dict(src="int32"), dict(src="int32", dst="int64"), dict(src="int16", dst="int32"), dict(src="uint8")],
+                    coverflow_sym, coverflow_real, labels=("exceeds_type",),
+                    doc="two source pixels of one coarse block with arbitrary values of the source type: stored block sum == exact sum or the operation is refused; "
+                        "with a wider requested dtype the sum is exact",
+                    bounds=dict(values="full positive range of int32 / int16 / uint8 sources")))
